@@ -80,6 +80,8 @@ def main():
             res = run_stage(MPI, size, j, timeout,
                             lambda rank, j=j: cc.stage_rest(j["spec"], j["caches"], j["outdir"], j["max_workers"],
                                                             rank == 0, j.get("ops")))
+        elif kind == "refusal":
+            res = run_refusal(MPI, size, j, timeout, cc)
         elif kind == "selftest":
             res = run_selftest(MPI, size, timeout)
         else:
@@ -170,6 +172,39 @@ def run_stage(MPI, size, j, timeout, body):
     p["sched"] = j.get("sched")
     if p.get("log") and len(p["log"]) > 4000:
         p["log"] = p["log"][:2000] + p["log"][-2000:]
+    return {"runs": [p]}
+
+
+COLL_KINDS = {"Barrier": 1, "bcast": 2, "Bcast": 3, "gather": 4, "Split": 5}
+
+
+def collective_traces(log, size):
+    """per communicator id: {rank: [code of every collective call the rank entered, in order]};
+    code = 8 * kind + (root + 1, or 0 for calls without a root) as in Model/MpiWrite.v"""
+    worlds = {}
+    for e in log:
+        rank, op, root, cid = e[1], e[2], e[3], e[5]
+        if rank is None or not op.startswith("enter:"):
+            continue
+        code = 8 * COLL_KINDS[op[6:]] + (0 if root is None else int(root) + 1)
+        worlds.setdefault(str(cid), {}).setdefault(str(rank), []).append(code)
+    if "0" in worlds:                 # COMM_WORLD: every rank is a member, also one that never called
+        for r in range(size):
+            worlds["0"].setdefault(str(r), [])
+    return worlds
+
+
+def run_refusal(MPI, size, j, timeout, cc):
+    """a refused request + barrier + valid follow-up operation on every rank of one world"""
+    first = {}
+    body = lambda rank: cc.stage_refusal(j["cls"], j["spec"], j["env"], j["par"], j["max_workers"], rank, first,
+                                         j["follow"])
+    run = MPI.run_world(size, MPI.Schedule.from_dict(j.get("sched")), body, timeout)
+    p = pack(run, keep_log=False)
+    p["sched"] = j.get("sched")
+    p["first"] = {str(r): v for r, v in sorted(first.items())}
+    p["ctraces"] = collective_traces(run["log"], size)
+    p["blocked"] = (run["abort"] or {}).get("blocked")
     return {"runs": [p]}
 
 
